@@ -341,7 +341,7 @@ pub fn prop_e2e(c: &E2eCase) -> CaseResult {
     let t5: IpAddr = "127.0.0.5".parse().unwrap();
     let t6: IpAddr = "127.0.0.6".parse().unwrap();
     let l6: IpAddr = "::1".parse().unwrap();
-    let timeout = Duration::from_secs(5);
+    let timeout = crate::e2e::reply_wait();
     match c.tracker.as_str() {
         "udp-mio" | "udp-uring" => {
             let uring = c.tracker == "udp-uring";
